@@ -5,6 +5,7 @@ tie   : Rust checker (scratch build of the current lib.rs) vs extracted coq/ML m
 oracle: finite-model evaluation of every term the *Rust* checker marks Proved from an empty theory
 """
 import json
+import os
 
 import common as C
 import mlgen as G
@@ -27,6 +28,10 @@ def run(tier, seed):
     e2e_ok, e2e_log = C.coq_make(['Props/E2E.vo'], timeout=900)
     R.coverage['extra_theorems'] = {'Props/E2E.v:E2E_declared_claims_follow_from_declared_axioms': 'checked' if e2e_ok else 'NOT checked: ' + e2e_log[-400:]}
     tie = T.Tie(R)
+    if e2e_ok:
+        import shippedproofs
+        sh_res = shippedproofs.run(R, tie.realbin if tie.ready else None)
+        R.coverage['extra_theorems']['Gen/ShippedValid.v (one theorem per proof triple committed under /repo/proofs)'] = sh_res
     if not tie.ready:
         R.violation('tie-build-failed', 'could not build model or Rust harness',
                     {'no_failing_input_found': True, 'theorem_or_correspondence': 'build of mlref_ml / rsref',
@@ -68,6 +73,37 @@ def run(tier, seed):
             cm = T.find_countermodel(t, rng, tries=budget_tries)
             if cm is not None:
                 found.append((ln, lab, t, cm))
+    # the checker as a PROGRAM: rust/src/main.rs turns verify()'s verdict into the exit status. Streams from the empty theory that declare a claim
+    # and that verify() rejects are run through the real binary; exit status 0 = accepted, and then every declared claim must be valid.
+    if tie.realbin:
+        import subprocess
+        dd = C.scratch_dir('pi2c01bin.')
+        cand = [(ln, lab) for ln, lab, ro in zip(lines, labels, r)
+                if ln.startswith('V - ') and ln.split()[2] != '-' and not (ro.startswith('ACCEPT') or ro.startswith('OK'))]
+        step = max(1, len(cand) // (120 if quick else 1500))
+        ran = 0
+        for ln, lab in cand[::step]:
+            f = ln.split()
+            paths = []
+            for j, h in enumerate(f[1:4]):
+                pth = os.path.join(dd, f'{j}.bin')
+                with open(pth, 'wb') as fh:
+                    fh.write(bytes(G.unhex(h)))
+                paths.append(pth)
+            ran += 1
+            if subprocess.run([tie.realbin, *paths], capture_output=True).returncode != 0:
+                continue
+            cl = C.run_lines(tie.rsref, [f'E C {f[2]}'])[0]
+            if cl.startswith('OK') and ' C[' in cl:
+                for t in [G.dec(G.unhex(x)) for x in cl.split(' C[')[1].rstrip(']').split(',') if x]:
+                    cm = T.find_countermodel(t, rng, tries=120)
+                    if cm is not None:
+                        R.violation('unsound:binary:' + lab.split(':')[0] + ':' + (lab.split(':')[1] if ':' in lab else ''),
+                                    f'the checker binary (rust/src/main.rs) exits 0 on a stream from the empty theory that declares the invalid claim {G.show(t)}',
+                                    {'request': ln, 'label': lab, 'claim': G.show(t), 'pattern_hex': G.phex(t), 'countermodel': cm,
+                                     'verify_verdict': 'REJECT', 'binary_exit_code': 0})
+                        break
+        R.hist['real_binary_runs_on_rejected_claim_streams'] = ran
     for ln, lab, t, cm in found[:5]:
         sig = 'unsound:' + lab.split(':')[0] + ':' + (lab.split(':')[1] if ':' in lab else '')
         R.violation(sig, f'Rust checker accepts a stream from the empty theory and marks Proved the invalid pattern {G.show(t)}',
